@@ -510,7 +510,7 @@ func (fc *famCase) drySizes() (map[uint32]int, []uint32, error) {
 
 // compact runs one compaction; maxMode: "tiny" (family option MaxFileSize = 1, set at creation),
 // "huge" (default), or "mid" (a boundary inside the output chosen from the dry-run sizes and
-// installed through kv.VerifSetMaxFileSize).
+// installed through kv.VerifC03SetMaxFileSize).
 func (fc *famCase) compact(r *rand.Rand, threshold int, maxMode string, optMax uint32) (failed bool) {
 	c := fc.c
 	sizes, keys, err := fc.drySizes()
@@ -530,7 +530,7 @@ func (fc *famCase) compact(r *rand.Rand, threshold int, maxMode string, optMax u
 			cum += sizes[keys[i]]
 		}
 		max = uint32(cum - r.Intn(sizes[keys[j]]))
-		kv.VerifSetMaxFileSize(fc.env.fam, max)
+		kv.VerifC03SetMaxFileSize(fc.env.fam, max)
 		c.Branch("fam/max=mid")
 	}
 	var sw []string
@@ -581,7 +581,7 @@ func (fc *famCase) compact(r *rand.Rand, threshold int, maxMode string, optMax u
 	}
 	c.Op(fmt.Sprintf("compact %d %d %s", threshold, max, sizeWord), out+" "+fc.levelsText())
 	if maxMode == "mid" {
-		kv.VerifSetMaxFileSize(fc.env.fam, 0)
+		kv.VerifC03SetMaxFileSize(fc.env.fam, 0)
 	}
 	return failed
 }
